@@ -954,6 +954,17 @@ func (x *Exec) checkPost(f *frame, st *State, vals []*Val, pos token.Pos) {
 	if f.ctr == nil {
 		return
 	}
+	// ghost code at return: append to the declared logs and define the new entries' fields
+	if !f.ctr.Trusted {
+		for _, lg := range f.ctr.Appends {
+			x.appendLog(st, lg)
+		}
+		for _, cl := range f.ctr.Defines {
+			x.clauseFn = f.fn
+			args := x.clauseArgs(f.ctr, cl, f.args, x.bindingValues(st, f.fn, f.bindings), vals, nil)
+			x.sc.assume(implies(st.pc, x.evalClauseFn(cl.Fn, args, st, f.old)))
+		}
+	}
 	for _, cl := range f.ctr.Ensures {
 		x.clauseFn = f.fn
 		args := x.clauseArgs(f.ctr, cl, f.args, x.bindingValues(st, f.fn, f.bindings), vals, nil)
